@@ -58,6 +58,10 @@ Owned(r, ls) ==
        ELSE IF V6Bootstrap(r) THEN FALSE
        ELSE \E l \in ls : l.idx = r.ifx /\ PolicyOurs(l.name, r)
 
+\* a route through a device that does not exist: impossible in a real kernel (the mock accepts it when
+\* Felix programs a route for an interface that has just gone); nothing is demanded about such a route
+Dangling(r, ls) == ~SpecialNoIf(r) /\ ~\E l \in ls : l.idx = r.ifx
+
 \* ---- rendering of a desired route: transcription of defs.go Target.RouteType/RouteScope/Flags and of
 \*      recalculateDesiredKernelRoute / applyUpdates ------------------------------------------------------------
 NormPrio(p) == IF cfg.ipv = 6 /\ p = 0 THEN 1024 ELSE p
@@ -93,10 +97,10 @@ ExactKey(k1, k2, ls, K) ==
       ELSE IF \E r \in Get(k1, K) : Owned(r, ls)
         THEN \/ Get(k2, K) = {}
              \/ Get(k2, K) = Get(k1, K) /\ Get(k1, K) \subseteq { Render(w, IdxOf(w, ls)) : w \in { v \in Wants(K) : Exists(v, ls) } }
-        ELSE Get(k2, K) = Get(k1, K)
+        ELSE Get(k2, K) = Get(k1, K) \/ (Get(k2, K) = {} /\ \E r \in Get(k1, K) : Dangling(r, ls))
 SafeKey(k1, k2, ls, K) ==
     \/ Get(k2, K) = Get(k1, K)
-    \/ \E r \in Get(k1, K) : Owned(r, ls)
+    \/ \E r \in Get(k1, K) : Owned(r, ls) \/ Dangling(r, ls)
     \/ Get(k2, K) # {} /\ Get(k2, K) \subseteq { Render(w, IdxOf(w, ls)) : w \in { v \in Wants(K) : Exists(v, ls) } }
 Exact(k1, k2, ls) == \A K \in KeysOf(k1, k2) : ExactKey(k1, k2, ls, K)
 Safe(k1, k2, ls) == \A K \in KeysOf(k1, k2) : SafeKey(k1, k2, ls, K)
@@ -137,12 +141,17 @@ Fail(flags) == /\ lie' = ("LinkByNameNotFound" \in flags)
                /\ ifDirty' = IF lie \/ lie' THEN ifDirty \cup {"*"} ELSE ifDirty
                /\ UNCHANGED <<cfg, kernel, links, desired, rtDirty, resyncQ>>
 
-Apply(ok, k2) ==
-    /\ ApplyPost(ok, kernel, k2, links) = TRUE     \* (`= TRUE`: evaluated as a value, not expanded as an action)
-    /\ kernel' = k2
+\* what an Apply does to the bookkeeping: a queued full resync has been consumed (or, if the Apply failed
+\* before it got there, is still pending inside Felix - either way the NEXT Apply knows everything that
+\* was true now)
+ApplyFlags ==
     /\ IF resyncQ THEN rtDirty' = FALSE /\ ifDirty' = (IF lie THEN {"*"} ELSE {}) /\ resyncQ' = FALSE
                   ELSE UNCHANGED <<rtDirty, ifDirty, resyncQ>>
     /\ UNCHANGED <<cfg, links, desired, lie>>
+Apply(ok, k2) ==
+    /\ ApplyPost(ok, kernel, k2, links) = TRUE     \* (`= TRUE`: evaluated as a value, not expanded as an action)
+    /\ kernel' = k2
+    /\ ApplyFlags
 
 Reset(c, k, ls) == /\ cfg' = c /\ kernel' = k /\ links' = ls /\ desired' = {}
                    /\ rtDirty' = FALSE /\ ifDirty' = {} /\ resyncQ' = TRUE /\ lie' = FALSE
